@@ -64,7 +64,6 @@ func Analyze(prog *Program, res *RunResult, cfg RunCfg, removed map[string]bool)
 	a := &Analysis{Prog: prog, Res: res, Cfg: cfg, DomainFrom: -1, Removed: removed}
 	var cur *CycleInfo
 	recIdx := 0
-	firing := uint64(0)
 	for _, e := range res.Events {
 		if e.L != 0 {
 			continue
@@ -113,14 +112,35 @@ func Analyze(prog *Program, res *RunResult, cfg RunCfg, removed map[string]bool)
 				cur.ActStart = e.Seq
 			}
 		case "iscomplete":
-			if cur == nil || len(cur.SetRules) == 0 {
-				a.Stray = append(a.Stray, "IsComplete without a firing")
+			// the first IsComplete after a firing marks the return of its action list; the
+			// engine is free to ask at other moments too
+			if cur == nil || len(cur.SetRules) == 0 || cur.Completed {
 				continue
 			}
-			firing++
 			cur.Completed = true
 			cur.ActSeqHi = e.Seq
-			cur.After = res.After[firing]
+			cur.After = res.After[uint64(e.Seq)]
+		}
+	}
+	// an engine that fires without telling the data context (no SetRuleEntry) or that does not
+	// ask IsComplete is still judged: the firing is then the ExecuteRuleEntry notification and
+	// the end of the action list is the next BeginCycle or the nil return
+	for i, c := range a.Cycles {
+		if len(c.SetRules) == 0 && len(c.Execs) > 0 {
+			c.SetRules = append(c.SetRules, c.Execs...)
+			c.ActSeqLo = c.ActStart
+		}
+		if len(c.SetRules) > 0 && !c.Completed {
+			if i+1 < len(a.Cycles) {
+				c.Completed = true
+				if n := a.Cycles[i+1].Rec; n != nil {
+					c.After = n.Start
+					c.ActSeqHi = n.Seq
+				}
+			} else if res.Err == nil && !res.Aborted && res.Final != nil {
+				c.Completed = true
+				c.After = res.Final
+			}
 		}
 	}
 	// expected active sets and action replay
@@ -493,7 +513,9 @@ func MonProtocol(a *Analysis) []Violation {
 	// budget boundary: the cycle-limit error exactly when one more firing is needed
 	if a.DomainFrom < 0 && a.Res.Panic == nil && !a.Res.Aborted && len(a.Cycles) > 0 {
 		last := a.Cycles[len(a.Cycles)-1]
-		isLimit := a.Res.Err != nil && strings.Contains(a.Res.Err.Error(), "cycles")
+		// the cycle-limit error is recognised by its place in the run, not by its message: an
+		// error returned from a cycle that fired nothing, not explained by the context or by
+		// ReturnErrOnFailedRuleEvaluation
 		if last.Rec != nil && len(last.SetRules) == 0 {
 			need := false
 			for name := range last.Active {
@@ -502,14 +524,14 @@ func MonProtocol(a *Analysis) []Violation {
 					need = true
 				}
 			}
-			if need && uint64(firings) >= a.Cfg.MaxCycle && !isLimit && !ctxEnded(a) && !retErrEnded(a) {
-				vs = append(vs, Violation{"Protocol", last.N, "", fmt.Sprintf("a further firing is needed after %d firings with MaxCycle %d but Execute returned %v instead of the cycle-limit error", firings, a.Cfg.MaxCycle, a.Res.Err)})
+			limitDue := need && uint64(firings) >= a.Cfg.MaxCycle
+			explained := ctxEnded(a) || retErrEnded(a)
+			if limitDue && a.Res.Err == nil && !explained {
+				vs = append(vs, Violation{"Protocol", last.N, "", fmt.Sprintf("a further firing is needed after %d firings with MaxCycle %d but Execute returned nil instead of the cycle-limit error", firings, a.Cfg.MaxCycle)})
 			}
-			if isLimit && (!need || uint64(firings) < a.Cfg.MaxCycle) {
-				vs = append(vs, Violation{"Protocol", last.N, "", fmt.Sprintf("cycle-limit error after %d firings with MaxCycle %d (further firing needed: %v)", firings, a.Cfg.MaxCycle, need)})
+			if a.Res.Err != nil && !limitDue && !explained {
+				vs = append(vs, Violation{"Protocol", last.N, "", fmt.Sprintf("Execute returned an error after %d firings with MaxCycle %d although no firing was blocked by the budget (further firing needed: %v): %v", firings, a.Cfg.MaxCycle, need, a.Res.Err)})
 			}
-		} else if isLimit {
-			vs = append(vs, Violation{"Protocol", last.N, "", "cycle-limit error returned from a cycle that fired a rule"})
 		}
 	}
 	// all listeners see the same sequence
@@ -658,4 +680,31 @@ func (a *Analysis) ConflictShape(c *CycleInfo) []int64 {
 	}
 	sort.Slice(s, func(i, j int) bool { return s[i] < s[j] })
 	return s
+}
+
+// limitDue: by the reference, the run ended at its budget (MaxCycle firings done and a rule due
+// in the last, non-firing cycle): an error returned there is the cycle-limit error.
+func (a *Analysis) limitDue() bool {
+	if len(a.Cycles) == 0 {
+		return false
+	}
+	last := a.Cycles[len(a.Cycles)-1]
+	if last.Rec == nil || len(last.SetRules) > 0 {
+		return false
+	}
+	firings := 0
+	for _, c := range a.Cycles {
+		if len(c.SetRules) > 0 {
+			firings++
+		}
+	}
+	if uint64(firings) < a.Cfg.MaxCycle {
+		return false
+	}
+	for name := range last.Active {
+		if t := last.Rec.Truth[name]; t.Val && !t.Err {
+			return true
+		}
+	}
+	return false
 }
